@@ -1795,6 +1795,10 @@ impl Fs {
 
         // Try renaming a directory
         if self.dir_exists(from) {
+            // Can't move a directory into its own subtree
+            if to.starts_with(from) {
+                return Err("Invalid argument");
+            }
             // Can't rename dir onto file or symlink
             if self.file_exists(to) || self.symlink_exists(to) {
                 return Err("Not a directory");
